@@ -42,10 +42,32 @@ func c14Scenarios() []histParams {
 		{Prop: "C14", Cfg: txCfg(1), Boot: "synced", Events: deep, Tx: true, ExtraDepth: 2}}
 }
 
+var histSched = map[string]func() []nschedTask{
+	"C07": func() []nschedTask {
+		sc := c07Scenarios()[0]
+		return []nschedTask{
+			{P: sc, Hist: []string{"multi:tx:T:R1|tx:U1:D1", "tick:1900", "multi:tx:T:R3|tx:U1:M2", "tick:2300", "mine:R3", "ans", "tick:250"}},
+			{P: sc, Hist: []string{"tx:U1:R1", "tick:1900", "multi:inv:T:R1|tx:U1:D1", "tick:100", "tick:2300"}},
+		}
+	},
+	"C14": func() []nschedTask {
+		sc := c14Scenarios()[0]
+		return []nschedTask{
+			{P: sc, Hist: []string{"multi:inv:T:R1|inv:U1:R1|inv:U2:R1", "tick:1000", "multi:inv:T:R1,R3|inv:U1:R3|uping:U2", "tick:3100", "multi:ping|uping:U1|uping:U2", "tick:100"}},
+			{P: sc, Hist: []string{"multi:inv:U1:R1|inv:U2:R1", "tick:3100", "multi:uping:U1|uping:U2|inv:T:R1", "multi:ans|uans:U1|uans:U2", "tick:100"}},
+		}
+	},
+}
+
 func regHist(prop string, sc func() []histParams, depthQ, depthT int, rule string, accept func(core.Violation) bool) {
 	All[prop] = func() int {
+		var sched []nschedTask
+		if f, ok := histSched[prop]; ok {
+			sched = f()
+			rule += ". Plus stateless schedule exploration: baselines with concurrent arrivals on several connections (all bytes delivered before any thread runs); one stall (250 ms) or pre-emption (2 alternatives) at every scheduling point, same oracles"
+		}
 		return runHistCheck(histCheck{prop: prop, scenarios: sc(), depthQ: depthQ, depthT: depthT, statesQ: 250000, statesT: 4000000,
-			budgetQ: 150 * time.Second, budgetT: 25 * time.Minute, rule: rule, assume: peerAssumption, accept: accept})
+			budgetQ: 150 * time.Second, budgetT: 25 * time.Minute, rule: rule, assume: peerAssumption, accept: accept, sched: sched})
 	}
 	Replayers[prop] = func(wit json.RawMessage) []core.Violation { return histReplay(wit, prop) }
 }
